@@ -1,11 +1,14 @@
 import MsiModel.Summary
+import MsiProofs.Lemmas.PropSetCodec
 /-
 C10 — summary information survives saving, in every code page.
 Here: the property-set writer is well-formed for every property set and every code page
 codec: each value occupies exactly the number of bytes the offset table assumes, a
 multiple of four, so every offset points at its typed, 4-byte-aligned value and the
 section size is exact; the setters are last-write-wins and the cached code page follows
-property 1.  (Reader round trip and the parser-level statement: tied by correspondence.)
+property 1; and the READER ROUND TRIP: every well-formed property set is written and read back
+as itself (`propset_roundtrip`), the string codec being a parameter that must round-trip the
+strings (the contract of `encoding_rs` that C14 decides).
 -/
 namespace MsiProofs.C10
 open MsiModel MsiModel.Bytes
@@ -130,5 +133,66 @@ theorem codepage_follows_set : cpFollowsAll = true := by decide +kernel
 
 example : (PropVal.lpstr "éé".toList).write PropSet.utf8 =
     .ok ([30, 0, 0, 0, 5, 0, 0, 0, 0xC3, 0xA9, 0xC3, 0xA9, 0, 0, 0, 0]) := by decide
+
+
+/-! ### reader round trip -/
+open MsiProofs.PropSetCodec
+
+/-- **read (write p) = p** for every well-formed property set: header fields, code page, every
+property and value; strings under any code page whose codec round-trips them -/
+def propset_roundtrip := @MsiProofs.PropSetCodec.propset_roundtrip
+/-- one value: read (write v) = v whatever follows it -/
+def val_roundtrip := @MsiProofs.PropSetCodec.val_roundtrip
+
+/-- non-vacuity: a property set with a code page entry (UTF-8: identifier 65001 stored as the
+16-bit number -535), a string, a timestamp and a 32-bit integer is well-formed -/
+def demo : PropSet :=
+  { os := 2, osVersion := 10, clsid := List.replicate 16 0, fmtid := List.replicate 16 7,
+    codepage := PropSet.utf8,
+    props := [(1, .i2 (-535)), (2, .lpstr "Title".toList), (12, .fileTime 132223104000000000), (14, .i4 200)] }
+
+theorem written_inv_cons {cp k v rest vbs} (h : Written cp ((k, v) :: rest) vbs) :
+    ∃ b bs, vbs = b :: bs ∧ v.write cp = .ok b ∧ Written cp rest bs := by
+  cases h with
+  | cons hb hr => exact ⟨_, _, rfl, hb, hr⟩
+theorem written_inv_nil {cp vbs} (h : Written cp [] vbs) : vbs = [] := by cases h; rfl
+
+theorem demo_wf : WF demo where
+  os := by decide
+  osVersion := by decide
+  clsid := by decide
+  fmtid := by decide
+  asc := by decide
+  ids := by decide
+  vals := by
+    intro kv hkv
+    simp only [demo, List.mem_cons, List.mem_nil_iff, or_false] at hkv
+    rcases hkv with rfl | rfl | rfl | rfl
+    · exact ⟨by decide, by decide⟩
+    · exact ⟨_, rfl, by decide, by decide⟩
+    · show (132223104000000000 : Nat) < 18446744073709551616; decide
+    · exact ⟨by decide, by decide⟩
+  cp := by
+    show CodePage.fromId _ = some _
+    decide
+  size := by
+    intro vbs h
+    obtain ⟨b1, r1, rfl, h1, h⟩ := written_inv_cons h
+    obtain ⟨b2, r2, rfl, h2, h⟩ := written_inv_cons h
+    obtain ⟨b3, r3, rfl, h3, h⟩ := written_inv_cons h
+    obtain ⟨b4, r4, rfl, h4, h⟩ := written_inv_cons h
+    have := written_inv_nil h
+    subst this
+    cases h1; cases h3; cases h4
+    have : b2.length = 16 := by
+      have : (PropVal.lpstr "Title".toList).write PropSet.utf8 = .ok b2 := h2
+      have h5 : (PropVal.lpstr "Title".toList).write PropSet.utf8 = .ok (u32le 30 ++ u32le 6 ++ [84, 105, 116, 108, 101] ++ [0] ++ [0,0]) := by decide
+      rw [h5] at this
+      cases this
+      decide
+    simp only [total, this, demo]
+    decide
+
+example : ∃ bytes, demo.write = .ok bytes ∧ PropSet.read bytes = .ok demo := propset_roundtrip demo demo_wf
 
 end MsiProofs.C10
